@@ -93,6 +93,10 @@ fn main() {
                 let (c, e) = slices::sess::c07_cases(&mut rng, &tier);
                 (c, e, "generated program run uninterrupted vs with host breaks at random turn boundaries (1/5 each), side-effect-free inspection statements (incl. failing ones and failing FN calls) and CONT; plus assignment at a STOP vs the assignment in place of the STOP; non-trivial = at least one break".into())
             }
+            "c02" => {
+                let (c, e) = slices::expr::cases(&mut rng, &tier, &driver);
+                (c, e, "all expression trees with 1 and 2 binary operators over 13 operators and leaf kinds (variable, numeral, string variable, zero) (thorough: a third of the 3-operator trees), every unary/binary operator pairing, and random trees of size 1..9 over literals, variables (set, unset, string), 3 unary + 13 binary operators, ABS, INT, with and without redundant parentheses; the text is rendered by the Lean spec with minimal parentheses".into())
+            }
             "c14" => {
                 let (c, e) = slices::list::cases(&mut rng, &tier);
                 (c, e, "1-8 storable lines (numerals in every spelling incl. hundreds of digits, DATA items quoted/unquoted/numeric/empty/with quotes/multibyte, REM text, strings, crunched keyword/identifier adjacencies, operators with inner blanks, statement-shaped lines, token soup) + a READ/PRINT tail; LIST, reload the listing into a fresh interpreter, LIST again, RUN both; non-trivial = more than one line reloaded".into())
